@@ -11,7 +11,7 @@ CONSTANTS
   RetryOnTick = TRUE
   TimerPushUnguarded = FALSE
   CloseOnDrop = TRUE
-  MaxRow = 4
+  MaxRow = 6
   MaxFaults = 2
   MaxLeader = 2
   AllowStop = TRUE
